@@ -235,6 +235,9 @@ func genReconf(c *Config, r *rand.Rand) {
 			a.Note += " openfail"
 		case 1:
 			a.Note += " cancel"
+		case 2:
+			// the processor that is replaced fails to tear down (the swap itself is fine)
+			a.Note += " tdfail"
 		}
 		plan = append(plan, a)
 	}
